@@ -40,7 +40,9 @@ class _RawOp:
 def make_proxy(worker, sim, recipe, rank, iterations, collected):
     def proxy(comm):
         worker.send_cmd("rank_exec", recipe=recipe, rank=rank,
-                        iterations=iterations)
+                        iterations=iterations,
+                        f_order_inputs=bool(sim.cfg.get("f_order_inputs")),
+                        extra_inputs=bool(sim.cfg.get("extra_inputs")))
         reqs: dict = {}
         bufs: dict = {}
         try:
